@@ -22,6 +22,7 @@ import shutil
 import subprocess
 import sys
 import tempfile
+import warnings
 
 from harness import common, corr, faultplant, known, obligations, progs
 
@@ -30,10 +31,12 @@ PY = '/venv/bin/python'
 INTERNAL_NOTE = 'not the assembler\'s own error: a raw {} escaped from assemble()'
 
 
-def asmfs_request(root, tree, compress, main='main.asm'):
+def asmfs_request(root, tree, compress, main='main.asm', include_dirs=()):
     files = sorted(tree.files.items())
     dirs = faultplant.tree_dirs(tree, root)
-    toks = ['asmfs', '1' if compress else '0', common.hexs(root), 'p', common.hexs(os.path.join(root, main)), '0', str(len(files))]
+    toks = ['asmfs', '1' if compress else '0', common.hexs(root), 'p', common.hexs(os.path.join(root, main)), str(len(include_dirs))]
+    toks += [common.hexs(d) for d in include_dirs]
+    toks.append(str(len(files)))
     for rel, lines in files:
         toks.append(common.hexs(os.path.join(root, rel)))
         toks.append(common.hexs('\n'.join(lines) + '\n'))
@@ -89,7 +92,7 @@ def judge(r, want_file, want_line, alt=None, cls=None):
 
 
 def run_cli(root, main, compress, repo):
-    env = dict(os.environ, PYTHONPATH=repo)
+    env = dict(os.environ, PYTHONPATH=repo, PYTHONUTF8='1', PYTHONWARNINGS='ignore::SyntaxWarning')      # source files are written as UTF-8
     out = os.path.join(root, 'cli_out.bin')
     cmd = [PY, '-m', 'bronzebeard.asm', main, '-o', out] + (['-c'] if compress else [])
     p = subprocess.run(cmd, cwd=root, env=env, stdout=subprocess.PIPE, stderr=subprocess.PIPE, text=True, timeout=120)
@@ -136,7 +139,7 @@ def make_case(asm, idx, tier):
         return None
     flat, fault = got
     as_string = depth == 0 and rnd.random() < 0.5
-    tree = faultplant.build_tree(rnd, flat, depth, fault_depth)
+    tree = faultplant.build_tree(rnd, flat, depth, fault_depth, unicode_noise=(rnd.random() < 0.04))
     return dict(idx=idx, fault=fault, depth=depth, fault_depth=tree.depth_of.get('fault', 0), as_string=as_string,
                 files={k: v for k, v in tree.files.items()}, where=tree.where, cli=(rnd.random() < 0.1))
 
@@ -148,10 +151,11 @@ class _T:
 
 def evaluate(asm, case, ask_model=True, keep_root=None):
     """run the oracle on one case -> result dict (problems, outcomes, model requests)"""
-    files = case['files']
-    tree = _T(files)
     root = tempfile.mkdtemp(prefix='bbc15-')
     root = os.path.realpath(root)
+    # {ROOT} in a planted line stands for the directory of the main file (absolute include paths)
+    files = {k: [l.replace('{ROOT}', root) for l in v] for k, v in case['files'].items()}
+    tree = _T(files)
     res = dict(idx=case['idx'], problems=[], outcome={}, requests=[], cli=[])
     try:
         faultplant.materialise(tree, root)
@@ -204,6 +208,7 @@ def evaluate(asm, case, ask_model=True, keep_root=None):
 def chunk_worker(args):
     seedv, lo, hi, tier = args
     os.environ['VERIF_SEED'] = str(seedv)
+    warnings.filterwarnings('ignore', category=SyntaxWarning)      # Python's eval comments on `[1]["a"]`, `(0)[0]`, ...
     asm = progs.get_asm()
     out = []
     reqs = []
@@ -351,7 +356,8 @@ def run(tier, replay):
                        'command line. non-trivial = distinct (class, variant template, fault depth, position).')
     rep.assumptions += ['wrong operand counts, unknown mnemonics/pack formats, align 0 and include cycles are not among the listed fault classes and are not planted',
                         'for a duplicated label either definition\'s line satisfies the oracle (counted separately); the model correspondence demands the second',
-                        'a planted line that is not refused at all is not a C15 matter (counted as differ-not-refused against the model)']
+                        'a planted line that is not refused at all is not a C15 matter (counted as differ-not-refused against the model)',
+                        'source files are written as UTF-8 and read by an interpreter in UTF-8 mode (PYTHONUTF8=1 for the command line); non-ASCII text is outside the model (unsupported), the oracle still judges it']
     if not rep.violations and ob['failed']:
         rep.violation('proof obligation no longer checks: {} ({})'.format(ob['failed'][0][0], ob['failed'][0][1][:300]),
                       dict(theorem=ob['failed'][0][0], detail=ob['failed'][0][1]), no_input=True)
